@@ -1,6 +1,7 @@
 //! C18 correspondence harness: calls the live CpuContext / MinidumpContext methods.
 //!   <variant> <name> <validity> <value> [<context_flags>|- [<fill>]]
 //!   R <arch> <fill> <len>      (MinidumpContext::read: which context type is chosen; see run_read)
+//!   W <variant> <n1>=<v1>,<n2>=<v2>,... [<fill>]   (a sequence of set_register calls; see run_writes)
 //! variant: MinidumpRawContext variant (X86 Ppc Ppc64 Amd64 Sparc Arm Arm64 OldArm64 Mips)
 //! name: register name, `-` for the empty string, `~` stands for a space
 //! validity: `A` (All) or `S:<n1>,<n2>,...` (Some(set); `S:` is the empty set; `-` = empty name)
@@ -193,6 +194,74 @@ where
     )
 }
 
+/// `W <variant> <n1>=<v1>,<n2>=<v2>,... [<fill>]`: a sequence of set_register calls on the base context.
+/// `wa=<1/0 per call: accepted>;ch=<REGISTERS entries that differ from the base afterwards r:v,...>;sp=..;ip=..` (B = as before)
+fn run_writes<T>(base: T, wrap: fn(T) -> MinidumpRawContext, ops: &[(String, u64)]) -> String
+where
+    T: CpuContext + Clone,
+    T::Register: Copy + Into<u64> + TryFrom<u64> + PartialEq,
+{
+    let before_md = MinidumpContext { raw: wrap(base.clone()), valid: MinidumpContextValidity::All };
+    let mut ctx = base.clone();
+    let mut wa = String::new();
+    for (n, v) in ops {
+        let val: T::Register = match T::Register::try_from(*v) {
+            Ok(x) => x,
+            Err(_) => panic!("value does not fit the register width"),
+        };
+        wa.push(if ctx.set_register(n, val).is_some() { '1' } else { '0' });
+    }
+    let mut ch: Vec<String> = vec![];
+    for r in T::REGISTERS {
+        let b: u64 = base.get_register_always(r).into();
+        let now: u64 = ctx.get_register_always(r).into();
+        if now != b {
+            ch.push(format!("{}:{}", r, now));
+        }
+    }
+    let mdc = MinidumpContext { raw: wrap(ctx), valid: MinidumpContextValidity::All };
+    let rel = |now: u64, before: u64| if now == before { "B".to_string() } else { now.to_string() };
+    format!(
+        "wa={};ch={};sp={};ip={}",
+        wa,
+        ch.join(","),
+        rel(mdc.get_stack_pointer(), before_md.get_stack_pointer()),
+        rel(mdc.get_instruction_pointer(), before_md.get_instruction_pointer())
+    )
+}
+
+fn run_writes_line(t: &mut Toks) -> String {
+    let variant = t.str();
+    let ops: Vec<(String, u64)> = t
+        .str()
+        .split(',')
+        .map(|p| {
+            let (n, v) = p.split_once('=').expect("name=value");
+            (name_of(n), v.parse().expect("value"))
+        })
+        .collect();
+    let fill: Option<u32> = t.opt().map(|f| f.parse().expect("fill"));
+    let bytes = pattern(fill);
+    macro_rules! go {
+        ($ty:ty, $wrap:path) => {{
+            let base: $ty = bytes.pread_with(0, scroll::LE).expect("context from pattern bytes");
+            run_writes::<$ty>(base, $wrap, &ops)
+        }};
+    }
+    match variant {
+        "X86" => go!(md::CONTEXT_X86, MinidumpRawContext::X86),
+        "Ppc" => go!(md::CONTEXT_PPC, MinidumpRawContext::Ppc),
+        "Ppc64" => go!(md::CONTEXT_PPC64, MinidumpRawContext::Ppc64),
+        "Amd64" => go!(md::CONTEXT_AMD64, MinidumpRawContext::Amd64),
+        "Sparc" => go!(md::CONTEXT_SPARC, MinidumpRawContext::Sparc),
+        "Arm" => go!(md::CONTEXT_ARM, MinidumpRawContext::Arm),
+        "Arm64" => go!(md::CONTEXT_ARM64, MinidumpRawContext::Arm64),
+        "OldArm64" => go!(md::CONTEXT_ARM64_OLD, MinidumpRawContext::OldArm64),
+        "Mips" => go!(md::CONTEXT_MIPS, MinidumpRawContext::Mips),
+        _ => panic!("unknown context variant {}", variant),
+    }
+}
+
 /// `R <arch> <fill> <len>`: MinidumpContext::read on `len` bytes in which every 32-bit word is `fill`, with a system info
 /// whose processor_architecture is `arch` (parsed from a 56-byte MINIDUMP_SYSTEM_INFO through the stream's own reader):
 /// `rd=<variant>;rsz=<register_size>;rip=<get_instruction_pointer>` or `rd=RF` (ReadFailure) / `rd=UC` (UnknownCpuContext)
@@ -231,6 +300,9 @@ fn run(line: &str) -> String {
     let variant = t.str();
     if variant == "R" {
         return run_read(&mut t);
+    }
+    if variant == "W" {
+        return run_writes_line(&mut t);
     }
     let name = name_of(t.str());
     let vspec = t.str();
